@@ -9,3 +9,5 @@ import BV.C15.LemmasFix
 import BV.C15.LemmasV0
 import BV.C15.LemmasAmt2
 import BV.C15.LemmasIdx
+import BV.C15.LemmasMore
+import BV.C15.LemmasBest
